@@ -60,8 +60,9 @@ class QuietNSE(NetworkServiceElement):
 
 
 class Topology:
-    def __init__(self, rng, nnets, cyclic=0, announce=True, known=None):
+    def __init__(self, rng, nnets, cyclic=0, announce=True, known=None, router_apps=0.0):
         self.rng = rng
+        self.router_apps = router_apps
         self.log = []
         numbers = rng.sample(range(1, 200), nnets) if rng.random() < 0.7 else rng.sample([1, 2, 255, 256, 1000, 65534, 4660, 77, 9, 30000], nnets)
         self.nets = {n: FaultNet("net%d" % n, Plan()) for n in numbers}
@@ -94,12 +95,22 @@ class Topology:
         nse = (NetworkServiceElement if announce else QuietNSE)()
         bind(nse, nsap)
         r = {"ports": {}, "nsap": nsap, "nse": nse, "name": "R%d" % idx}
-        for n in ports:
+        hosts_app = bool(self.router_apps and self.rng.random() < self.router_apps)
+        for k, n in enumerate(ports):
             mac = 100 + idx
             node = Node(Address(mac), self.nets[n])
-            nsap.bind(node, n, Address(mac))
+            if hosts_app and k > 0:
+                nsap.bind(node, n)              # the way the library's documentation binds the further ports of a router:
+            else:                               # only the port the application lives on is given an address
+                nsap.bind(node, n, Address(mac))
             r["ports"][n] = mac
         self.routers.append(r)
+        if hosts_app:
+            # a router that also hosts an application: a station on the network of its first port (its local adapter)
+            name = "A%d.%d" % (ports[0], 100 + idx)
+            user = NetUser(name, self.log)
+            bind(user, nsap)
+            self.stations[name] = {"net": ports[0], "mac": 100 + idx, "user": user, "nsap": nsap, "knows": True, "name": name, "router": r}
 
     def add_station(self, net, mac, knows):
         name = "S%d.%d" % (net, mac)
@@ -125,6 +136,22 @@ class Topology:
     def describe(self):
         return {"networks": sorted(self.nets), "routers": [sorted(r["ports"]) for r in self.routers],
                 "stations": {k: ("knows" if v["knows"] else "unknown-net") for k, v in self.stations.items()}}
+
+
+KNOWN_ROUTER_APP = "router-hosted-application-cannot-exchange-traffic-with-the-networks-on-its-other-ports"
+
+
+def other_port(topo, name, net):
+    """is `name` an application hosted by a router, and `net` a network on one of that router's other ports?"""
+    r = topo.stations[name].get("router")
+    return bool(r) and net != topo.stations[name]["net"] and net in r["ports"]
+
+
+def shown_through_other_port(topo, src, shown, receiver_net):
+    """an application hosted by a router sent through one of the router's other ports: the source shown is the router's
+    address on that port's network, not the application's own"""
+    net = shown.addrNet if shown.addrType == Address.remoteStationAddr else receiver_net
+    return other_port(topo, src, net) and shown.addrAddr == bytes([topo.stations[src]["mac"]])
 
 
 def expected_recipients(topo, src, kind, target):
@@ -202,9 +229,84 @@ def wire_rules(run, topo, token, wit, n_before):
     return total
 
 
-def run_topology(run, rng, nnets, announce, cold_only=False):
+def run_bursts(run, rng, nnets, announce):
+    """several packets for one remote network handed to a station's network layer back to back (before the path discovery
+    of the first can have come back): each is delivered once to exactly its recipients"""
     CLOCK.reset()
-    topo = Topology(rng, nnets, announce=announce)
+    topo = Topology(rng, nnets, announce=announce, router_apps=rng.choice([0.0, 0.5]))
+    CLOCK.drive(duration=1.0, max_steps=200000)
+    st = topo.stations
+    names = sorted(st)
+    seq = 0
+    for rnd in range(6):
+        src = rng.choice(names)
+        s = st[src]
+        remote = [n for n in topo.nets if n != s["net"]]
+        if not remote:
+            return
+        net = rng.choice(remote)
+        burst = []
+        for _ in range(rng.randrange(2, 5)):
+            on_net = [k for k, v in st.items() if v["net"] == net]
+            if on_net and rng.random() < 0.6:
+                burst.append(("remote-station", rng.choice(on_net)))
+            else:
+                burst.append(("remote-broadcast", net))
+        if rng.random() < 0.3:
+            burst.insert(rng.randrange(len(burst) + 1), ("global-broadcast", None))
+        wit = {"topology": topo.describe(), "source": src, "burst": burst, "round": rnd, "announce": announce}
+        l0 = len(topo.log)
+        tokens = []
+        try:
+            for kind, tgt in burst:
+                seq += 1
+                tokens.append("B%05d" % seq)
+                s["user"].send(dest_address(topo, src, kind, tgt), tokens[-1])
+            CLOCK.drive(duration=8.0, max_steps=400000)
+        except StepBudgetExceeded as err:
+            run.violation("forwarding-does-not-terminate", dict(wit, error=str(err)))
+            return
+        except Exception as err:
+            run.violation("send-raised/" + type(err).__name__, dict(wit, error=repr(err)[:120]))
+            return
+        run.count("bursts")
+        for tok, (kind, tgt) in zip(tokens, burst):
+            run.case(("burst", nnets, rnd, tok, src, kind, str(tgt), repr(sorted(topo.describe()["routers"]))), sample=None)
+            want = expected_recipients(topo, src, kind, tgt)
+            names_got = [e["at"] for e in topo.log[l0:] if e["token"] == tok]
+            run.count("burst_packets_checked")
+            w2 = dict(wit, token_position=tokens.index(tok), kind=kind, target=tgt)
+            if set(names_got) - want:
+                run.violation("delivered-to-station-not-addressed/%s/in-burst" % kind, dict(w2, extra=sorted(set(names_got) - want)))
+                return
+            if len(names_got) != len(set(names_got)):
+                run.violation("delivered-more-than-once/%s/in-burst" % kind, dict(w2, got=names_got))
+                return
+            if want - set(names_got) and all(other_port(topo, src, st[m]["net"]) for m in want - set(names_got)):
+                run.violation(KNOWN_ROUTER_APP, dict(w2, missing=sorted(want - set(names_got))))
+                continue
+            if want - set(names_got):
+                run.violation("not-delivered/%s/in-burst/position-%s" % (kind, "first" if tokens.index(tok) == 0 else "later"),
+                              dict(w2, missing=sorted(want - set(names_got))))
+                return
+            # the source shown must name the originator here too
+            for e in topo.log[l0:]:
+                if e["token"] == tok:
+                    shown = e["src"]
+                    rcp = st[e["at"]]
+                    if not ((shown.addrAddr == bytes([s["mac"]])) and (
+                            (shown.addrType == Address.localStationAddr and rcp["net"] == s["net"]) or
+                            (shown.addrType == Address.remoteStationAddr and shown.addrNet == s["net"]))):
+                        if shown_through_other_port(topo, src, shown, rcp["net"]):
+                            run.violation(KNOWN_ROUTER_APP, dict(w2, at=e["at"], shown=str(shown)))
+                            continue
+                        run.violation("source-address-does-not-name-the-originator/in-burst", dict(w2, at=e["at"], shown=str(shown)))
+                        return
+
+
+def run_topology(run, rng, nnets, announce, cold_only=False, router_apps=0.0):
+    CLOCK.reset()
+    topo = Topology(rng, nnets, announce=announce, router_apps=router_apps)
     CLOCK.drive(duration=1.0, max_steps=200000)           # start-up announcements
     st = topo.stations
     names = sorted(st)
@@ -275,6 +377,9 @@ def run_topology(run, rng, nnets, announce, cold_only=False):
             if dups:
                 run.violation("delivered-more-than-once/" + kind, dict(wit, dups=sorted(dups)))
                 continue
+            if missing and all(other_port(topo, src, st[m]["net"]) for m in missing):
+                run.violation(KNOWN_ROUTER_APP, dict(wit, missing=sorted(missing)))
+                continue
             if missing:
                 run.violation("not-delivered/%s/%s" % (kind, phase) + ("/%s@%s" % (swallowed[-1]["exc"], (swallowed[-1]["origin"] or "?").split(":")[1]) if swallowed else ""),
                               dict(wit, missing=sorted(missing), swallowed=swallowed[-2:]))
@@ -291,6 +396,9 @@ def run_topology(run, rng, nnets, announce, cold_only=False):
                 ok_src = (shown.addrAddr == bytes([s["mac"]])) and (
                     (shown.addrType == Address.localStationAddr and rcp["net"] == s["net"]) or
                     (shown.addrType == Address.remoteStationAddr and shown.addrNet == s["net"]))
+                if not ok_src and shown_through_other_port(topo, src, shown, rcp["net"]):
+                    run.violation(KNOWN_ROUTER_APP, dict(wit, at=e["at"], shown=str(shown)))
+                    continue
                 if not ok_src:
                     run.violation("source-address-does-not-name-the-originator", dict(wit, at=e["at"], shown=str(shown)))
                     break
@@ -305,6 +413,9 @@ def run_topology(run, rng, nnets, announce, cold_only=False):
                     break
                 back = [x["at"] for x in topo.log[l1:] if x["token"] == rtoken]
                 run.count("replies_checked")
+                if back != [src] and not back and other_port(topo, e["at"], s["net"]):
+                    run.violation(KNOWN_ROUTER_APP, dict(wit, replier=e["at"], shown=str(shown)))
+                    continue
                 if back != [src]:
                     run.violation("reply-to-shown-source-does-not-reach-originator/" + kind, dict(wit, replier=e["at"], shown=str(shown), reached=back))
                     break
@@ -356,25 +467,27 @@ def main():
     run = Run("C06", "exploration", RULE, assumptions=[
         "loop-free (tree) internetworks for the delivery clauses; cyclic topologies only for termination",
         "a station that does not know its own network number addressing its own network by number is not generated",
-        "routers carry no application above the network layer"])
+        "some routers also host an application (a station on the network of their first port)"])
     if run.tier == "replay":
         run.inconclusive_because("replay: re-run the tier with the same VERIF_SEED (topologies are derived from it)")
         return run.finish()
     thorough = run.tier == "thorough"
     if thorough and run.args.shard is None:
         run.run_shards("rv.props.c06", timeout=3400)
-        return run.finish(require=("topologies", "deliveries_checked", "replies_checked", "forwarded_copies_checked", "ring_packets"))
+        return run.finish(require=("topologies", "deliveries_checked", "replies_checked", "forwarded_copies_checked", "ring_packets", "burst_packets_checked"))
     rng = run.rng("c06")
     n = (9600 if thorough else 150) // (run.shard[1] if thorough else 1) + 1
     for i in range(n):
         nnets = rng.choice([2, 2, 3, 3, 4, 5, 6, 8])
-        run_topology(run, rng, nnets, announce=rng.random() < 0.5)
+        run_topology(run, rng, nnets, announce=rng.random() < 0.5, router_apps=rng.choice([0.0, 0.0, 0.5, 1.0]))
+        if i % 3 == 0:
+            run_bursts(run, rng, rng.choice([2, 3, 4, 5]), announce=rng.random() < 0.3)
     for k in (3, 4, 5):
         if thorough and not run.mine(k):
             continue
         run_ring(run, rng, k)
     run.finish(require=("topologies", "deliveries_checked", "replies_checked", "forwarded_copies_checked", "ring_packets")
-               if not thorough or run.shard[0] in (3, 4, 5) else ("topologies", "deliveries_checked", "replies_checked", "forwarded_copies_checked"))
+               if not thorough or run.shard[0] in (3, 4, 5) else ("topologies", "deliveries_checked", "replies_checked", "forwarded_copies_checked", "burst_packets_checked"))
 
 
 if __name__ == "__main__":
